@@ -457,7 +457,7 @@ def r3_tables(repo: Repo, rep):
             continue
         t = dump(p.ret).replace(" ", "")
         J = f"jac({fi.params[0]},*{fi.node.args.vararg.arg})"
-        ok = t == f"torch.bmm({J},{fi.params[1]}.unsqueeze(dim=2)).squeeze(dim=2)"
+        ok = t == f"torch.bmm({J},{fi.params[1]}.unsqueeze(2)).squeeze(dim=2)"
         rep.check(R, ok, fi.site(), fi.fq, "bmm(J, v[..., None])[..., 0]", t[:120], t[:120])
     fi = m.functions.get("normal_derivative")
     rep.saw(fi)
